@@ -855,3 +855,9 @@ fire('brk1-with-items-break', ['C14'], ['BRK-1'], 'WithStmt.get_defined_names st
 # round 14: the parser renders the tree it is recovering (rt14-C02)
 fire('par15-get-code-in-recovery', ['C02'], ['PAR-15'], 'the recovery path evaluates node.get_code() (as the argument of a debug log call): three frames per nesting level',
      (PYPARSER, "            node = tree.PythonErrorNode(all_nodes)\n", "            node = tree.PythonErrorNode(all_nodes)\n            self._last_error_text = node.get_code(include_prefix=False)[:40]\n"))
+
+# round 14: the dispatch of the NUMBER branch (rt14-C10)
+fire('tok15-number-by-last-char', ['C10', 'C06'], ['TOK-15'], "a token that starts with a point is a NUMBER when its last character is a digit: `.5j` becomes an operator",
+     (TOK, "                    or (initial == '.' and token != '.' and token != '...')):", "                    or (initial == '.' and token[-1] in numchars)):"))
+silent('s-tok15-not-in-tuple', ['C10', 'C06'], "the same condition spelled with `token not in ('.', '...')`",
+       (TOK, "                    or (initial == '.' and token != '.' and token != '...')):", "                    or (initial == '.' and token not in ('.', '...'))):"))
